@@ -360,6 +360,7 @@ func (t *Terminfo) TParm(s string, p ...interface{}) string {
 	)
 
 	skip := emit
+	nest := 0 // conditionals opened inside the part being skipped
 
 	for {
 
@@ -379,6 +380,16 @@ func (t *Terminfo) TParm(s string, p ...interface{}) string {
 		if err != nil {
 			// XXX Error
 			break
+		}
+		if skip != emit && (ch == '?' || (nest > 0 && (ch == ';' || ch == 'e'))) {
+			// a nested conditional inside the skipped part: its %e and %;
+			// belong to it, not to the conditional being skipped
+			if ch == '?' {
+				nest++
+			} else if ch == ';' {
+				nest--
+			}
+			continue
 		}
 		if skip == toEnd {
 			if ch == ';' {
